@@ -278,8 +278,9 @@ pub fn quantiles(cfg: &mut Cfg, rep: &mut Report) {
     one_1d::<u8>(cfg, rep, maxn.min(3));
     one_1d::<i64>(cfg, rep, maxn.min(3));
     one_1d::<N64>(cfg, rep, maxn.min(3));
-    let shapes: Vec<Vec<usize>> = if cfg.thorough { vec![vec![2, 3], vec![3, 2], vec![2, 2, 3], vec![1, 4], vec![3, 0], vec![2, 1, 2, 2]] } else { vec![vec![2, 3], vec![3, 2], vec![2, 2, 2], vec![2, 0]] };
+    // (axes of length 1 in every position: a lane of one element, several lanes, several quantiles)
+    let shapes: Vec<Vec<usize>> = if cfg.thorough { vec![vec![2, 3], vec![3, 2], vec![2, 2, 3], vec![1, 4], vec![3, 1], vec![2, 1, 3], vec![3, 0], vec![2, 1, 2, 2]] } else { vec![vec![2, 3], vec![3, 2], vec![1, 3], vec![2, 1, 2], vec![2, 2, 2], vec![2, 0]] };
     one_nd::<i32>(cfg, rep, &shapes, cfg.seed);
-    one_nd::<N64>(cfg, rep, &shapes[..2.min(shapes.len())], cfg.seed + 1);
+    one_nd::<N64>(cfg, rep, &shapes[..3.min(shapes.len())], cfg.seed + 1);
     one_nd::<i8>(cfg, rep, &shapes[..2.min(shapes.len())], cfg.seed + 2);
 }
